@@ -59,7 +59,7 @@ def build_dfa(RD, check_validity=True, scramble=None):
     return DFA(_mkset(RD[0], scramble, 'Q'), _mkset(RD[1], scramble, 'Sigma'), delta, RD[3], _mkset(RD[4], scramble, 'F'), check_validity=check_validity)
 
 
-NFA_KINDS = ('defaultdict_set', 'defaultdict_lambda', 'dict_total', 'dict_partial')
+NFA_KINDS = ('defaultdict_set', 'defaultdict_lambda', 'dict_total', 'dict_partial', 'dict_total_aliased')
 
 
 def build_nfa(RN, eps='', kind='defaultdict_set', scramble=None):
@@ -79,6 +79,20 @@ def build_nfa(RN, eps='', kind='defaultdict_set', scramble=None):
         for p in RN[0]:
             for a in list(RN[1]) + [eps]:
                 delta.setdefault((p, a), set())
+    if kind == 'dict_total_aliased':
+        # as produced by dict.fromkeys(keys, set()) with some entries assigned afterwards: ONE empty set object under all keys
+        # without moves, and ONE set object under all keys that have equal targets (aliasing among the values of delta)
+        shared = set()
+        for p in RN[0]:
+            for a in list(RN[1]) + [eps]:
+                delta.setdefault((p, a), shared)
+        seen = {}
+        for k in list(delta):
+            fs = frozenset(delta[k])
+            if fs and fs in seen:
+                delta[k] = seen[fs]
+            elif fs:
+                seen[fs] = delta[k]
     return NFA(_mkset(RN[0], scramble, 'Q'), _mkset(RN[1], scramble, 'Sigma'), delta, RN[3], _mkset(RN[4], scramble, 'F'), eps)
 
 
@@ -160,6 +174,15 @@ def build_pda(RP, eps='', kind='defaultdict_set', scramble=None):
     e = lambda x: eps if x is None else x
     for (p, a, u, q, v) in _scr(RP[3], scramble, 'delta'):
         delta[(p, e(a), e(u))].add((q, e(v)))
+    if scramble is not None and scramble % 3 == 0:
+        # aliasing among the values of delta: keys with equal target sets hold ONE set object
+        seen = {}
+        for k in list(delta):
+            fs = frozenset(delta[k])
+            if fs in seen:
+                delta[k] = seen[fs]
+            else:
+                seen[fs] = delta[k]
     return PDA(_mkset(RP[0], scramble, 'Q'), _mkset(RP[1], scramble, 'Sigma'), _mkset(RP[2], scramble, 'Gamma'), delta, RP[4], _mkset(RP[5], scramble, 'F'), eps)
 
 
